@@ -1343,7 +1343,9 @@ ws_http_cb_dialer(nni_ws *ws, nni_aio *aio)
 
 	d = ws->dialer;
 	nni_mtx_lock(&d->mtx);
+	nni_mtx_lock(&ws->mtx); // ws_dial_cancel clears it under this lock
 	uaio = ws->useraio;
+	nni_mtx_unlock(&ws->mtx);
 
 	// We have two steps.  In step 1, we just sent the request,
 	// and need to retrieve the reply.  In step two we have
@@ -2356,13 +2358,16 @@ ws_dialer_dial(void *arg, nni_aio *aio)
 		ws_reap(ws);
 		return;
 	}
+	// ws_dial_cancel may run as soon as the aio is started, and only
+	// cancels the dial of the aio it finds here.
+	ws->useraio = aio;
 	if (!nni_aio_start(aio, ws_dial_cancel, ws)) {
 		nni_mtx_unlock(&d->mtx);
+		ws->useraio = NULL;
 		ws_reap(ws);
 		return;
 	}
 	ws->dialer    = d;
-	ws->useraio   = aio;
 	ws->server    = false;
 	ws->maxframe  = d->maxframe;
 	ws->fragsize  = d->fragsize;
